@@ -266,8 +266,8 @@ impl fmt::Debug for F {
 }
 
 pub const MAX_LEAVES: u32 = 192;
-pub const MAX_FN: u16 = 48;
-pub const MAX_PRED: u16 = 24;
+pub const MAX_FN: u16 = 112;
+pub const MAX_PRED: u16 = 40;
 pub const MAX_ARITY: usize = 4;
 
 /// Declarations sent once to each solver process.
